@@ -39,6 +39,8 @@ type reuseRunner struct {
 	lastW  map[[2]int]int // (conn, call) -> ordinal of the call's last write on that conn
 
 	cs        calls
+	panicMu   sync.Mutex
+	panicMsg  string
 	closeDone chan struct{}
 	closing   bool
 	holdClose atomic.Int32
@@ -101,6 +103,12 @@ func (r *reuseRunner) newConn(x int) *simnet.Conn {
 	return c
 }
 
+func (r *reuseRunner) dropConn(x int) {
+	r.mu.Lock()
+	delete(r.conns, x)
+	r.mu.Unlock()
+}
+
 func noteInt(op *simnet.Op, key string) int {
 	for i := 0; i+1 < len(op.Note); i += 2 {
 		if op.Note[i] == key {
@@ -120,6 +128,15 @@ func (r *reuseRunner) startCall(c int) {
 	r.cs.mu.Unlock()
 	r.rec.Log("Start", "c", c)
 	go func() {
+		defer func() {
+			if p := recover(); p != nil { // a panic of the code under test is a conformance failure
+				r.panicMu.Lock()
+				r.panicMsg = fmt.Sprint(p)
+				r.panicMu.Unlock()
+				r.rec.Log("Return", "c", c, "res", "panic", "vc", -1, "vw", -1, "err", fmt.Sprint(p))
+				close(cl.done)
+			}
+		}()
 		resp, err := r.t.ExchangeContext(ctx, queryFor(c))
 		vc, vw := -1, -1
 		if err == nil && resp != nil {
@@ -204,8 +221,8 @@ func (r *reuseRunner) step(s Step) (bool, string) {
 		}
 		if s.flag("ok") {
 			cn := r.newConn(d)
-			if !op.Complete(cn, nil) {
-				return false, fmt.Sprintf("dial %d ended before it could succeed", d)
+			if !op.Complete(cn, nil) { // the dial ended through its context in the meantime: no such connection
+				r.dropConn(d)
 			}
 		} else {
 			op.Complete(nil, simnet.ErrRefused)
@@ -288,6 +305,11 @@ func (r *reuseRunner) step(s Step) (bool, string) {
 				return false, fmt.Sprintf("no deadline of kind %q fired on conn %d", s.str("armed"), x)
 			}
 		}
+	case "Surplus": // a message nobody asked for, on an idle connection
+		cn := r.conn(x)
+		if cn == nil || !cn.Deliver(replyFor(0, 0), stepWait, "surplus", true) && !cn.IsClosed() {
+			return false, fmt.Sprintf("surplus message could not be delivered on conn %d", x)
+		}
 	case "CloseReq":
 		cn := r.conn(x)
 		if cn == nil || !cn.WaitClosed(stepWait) {
@@ -366,7 +388,9 @@ func (r *reuseRunner) step(s Step) (bool, string) {
 				return true, ""
 			}
 			if dop != nil {
-				dop.Complete(r.newConn(dop.ID), nil)
+				if !dop.Complete(r.newConn(dop.ID), nil) {
+					r.dropConn(dop.ID)
+				}
 				continue
 			}
 			cn := r.conn(wx)
@@ -583,6 +607,9 @@ func runReuse(idx int, sc Script) Result {
 		res.Leak = transportFrames() // diagnostics of the hang
 	}
 	res.Events = r.convert()
+	r.panicMu.Lock()
+	res.Panic = r.panicMsg
+	r.panicMu.Unlock()
 	return res
 }
 
@@ -622,6 +649,8 @@ func (r *reuseRunner) convert() []map[string]any {
 		case "Deliver":
 			if e["short"] == true {
 				out = append(out, map[string]any{"ev": "ReadRet", "x": x, "k": "err"})
+			} else if e["surplus"] == true {
+				out = append(out, map[string]any{"ev": "ReadRet", "x": x, "k": "surplus"})
 			} else {
 				out = append(out, map[string]any{"ev": "ReadRet", "x": x, "k": "reply", "c": e["c"], "w": e["w"]})
 			}
